@@ -216,7 +216,19 @@ class SemantivaOrchestrator(ABC):
             )
 
         # NOW instantiate nodes (this may emit 'instantiate' events)
-        nodes, node_defs = self._instantiate_nodes(resolved_spec, logger)
+        try:
+            nodes, node_defs = self._instantiate_nodes(resolved_spec, logger)
+        except Exception as exc:
+            # pipeline_start is already written: close the bracket and the file
+            if trace is not None and run_id is not None:
+                try:
+                    trace.on_pipeline_end(
+                        run_id, {"status": "error", "error": str(exc)}
+                    )
+                finally:
+                    trace.flush()
+                    trace.close()
+            raise
         self._last_nodes = list(nodes)
 
         trace_active = (
